@@ -1127,6 +1127,67 @@ fn nesting(cx: &Ctx, col: &mut Collector, fc: &FaultCx) {
                     }
                 }
             }
+            // the same route with something at the bottom: every kind of field of the message
+            // (scalar, string, repeated, map entry, oneof member, embedded message) as the
+            // innermost content, at every depth 1..=300 - the budget is also spent by what sits
+            // at the deepest level
+            if rname == "unknown-group" {
+                continue;
+            }
+            let sp = Space { doc, thorough: false };
+            let mut seen_kinds: Vec<String> = vec![];
+            let mut bottoms: Vec<(String, Vec<u8>)> = vec![];
+            for v in sp.values(m, 0) {
+                if v.0.len() != 1 {
+                    continue;
+                }
+                let k = kinds_of(m, &v).first().cloned().unwrap_or_default();
+                if seen_kinds.contains(&k) {
+                    continue;
+                }
+                let b = pb::encode(doc, m, &v);
+                if b.is_empty() {
+                    continue;
+                }
+                seen_kinds.push(k.clone());
+                bottoms.push((k, b));
+            }
+            for (bk, bottom) in bottoms.iter().take(if cx.thorough { 16 } else { 8 }) {
+                let mut cur = bottom.clone();
+                for d in 1..=300usize {
+                    if is_group {
+                        let unit = wrap(Vec::new());
+                        let (open, close) = unit.split_at(unit.len() / 2);
+                        let mut x = Vec::with_capacity(unit.len() * d + bottom.len());
+                        for _ in 0..d {
+                            x.extend_from_slice(open);
+                        }
+                        x.extend_from_slice(bottom);
+                        for _ in 0..d {
+                            x.extend_from_slice(close);
+                        }
+                        cur = x;
+                    } else {
+                        cur = wrap(std::mem::take(&mut cur));
+                    }
+                    // around the limit every depth, elsewhere every 7th (quick)
+                    if !cx.thorough && !(90..=112).contains(&d) && d % 7 != 0 && d > 4 {
+                        continue;
+                    }
+                    if !col.next_case(&format!("nesting-bottom:{}:{}", e.doc, e.ty)) {
+                        continue;
+                    }
+                    let what = format!("nesting:{}+bottom", rname.split(':').next().unwrap());
+                    let bytes = cur.clone();
+                    fault_one(col, fc, e, &what, &bytes, d > 100, Mode::Decode, &|| json!({"doc": e.doc, "cfg": e.cfg, "ty": e.fq, "show": format!("{} nested {} deep around {}", rname, d, bk), "x": {"fault": "nesting", "route": rname, "depth": d, "bottom": bk}}));
+                    if d <= 30 {
+                        let r = exec(e, &bytes, BufKind::Bytes, Mode::Decode, false);
+                        if r.dec != DecRes::Ok {
+                            col.fail(format!("C10|{}|nesting-shallow-rejected|{}", e.cfg, what), json!({"doc": e.doc, "cfg": e.cfg, "ty": e.fq, "show": format!("{} nested {} deep around {}", rname, d, bk)}), format!("depth {} rejected: {:?}", d, r.dec));
+                        }
+                    }
+                }
+            }
         }
     }
 }
